@@ -270,3 +270,242 @@ Check lex_upper_bound_walk :
     li_walk (length l) l (snd (li_seek_upper_bound l t)) =
     filter (fun s => match lex s t with Gt => true | _ => false end) l.
 Print Assumptions lex_upper_bound_walk.
+
+(* ======================= extension: FastStr, word-boundary helpers, LineProcessor configurations ======================= *)
+From ZV.C20 Require Import ModelFast ModelText CasesX ProofsFast ProofsFastHash ProofsText.
+Open Scope N_scope.
+
+(* FastStr::find (empty needle, needle longer than the text, single-byte dispatch, window loop) returns exactly the
+   first occurrence, None exactly when there is none; overlapping occurrences included *)
+Theorem fs_find_first_occurrence :
+  forall h n,
+    (forall i, fs_find h n = Some i <-> (occurs_at h n i /\ forall j, occurs_at h n j -> (i <= j)%nat)) /\
+    (fs_find h n = None <-> forall j, ~ occurs_at h n j).
+Proof. exact fs_find_iff_proof. Qed.
+Check fs_find_first_occurrence :
+  forall h n,
+    (forall i, fs_find h n = Some i <-> (occurs_at h n i /\ forall j, occurs_at h n j -> (i <= j)%nat)) /\
+    (fs_find h n = None <-> forall j, ~ occurs_at h n j).
+Print Assumptions fs_find_first_occurrence.
+
+(* find_byte / find_byte_optimized: the first position of the byte *)
+Theorem fs_find_byte_first :
+  forall c h i, find_byte c h = Some i ->
+    occurs_at h [c] i /\ forall j, (j < i)%nat -> ~ occurs_at h [c] j.
+Proof. exact (fun c h i H => find_byte_first c h i H). Qed.
+Check fs_find_byte_first :
+  forall c h i, find_byte c h = Some i ->
+    occurs_at h [c] i /\ forall j, (j < i)%nat -> ~ occurs_at h [c] j.
+Print Assumptions fs_find_byte_first.
+
+(* starts_with = being a prefix *)
+Theorem fs_starts_with_spec :
+  forall s p, fs_starts_with s p = true <-> exists r, s = p ++ r.
+Proof. exact fs_starts_with_proof. Qed.
+Check fs_starts_with_spec :
+  forall s p, fs_starts_with s p = true <-> exists r, s = p ++ r.
+Print Assumptions fs_starts_with_spec.
+
+(* ends_with = being a suffix *)
+Theorem fs_ends_with_spec :
+  forall s p, fs_ends_with s p = true <-> exists r, s = r ++ p.
+Proof. exact fs_ends_with_proof. Qed.
+Check fs_ends_with_spec :
+  forall s p, fs_ends_with s p = true <-> exists r, s = r ++ p.
+Print Assumptions fs_ends_with_spec.
+
+(* starts_with agrees with find *)
+Theorem fs_starts_with_is_find_0 :
+  forall s p, fs_starts_with s p = true <-> fs_find s p = Some O.
+Proof. exact fs_starts_with_find_proof. Qed.
+Check fs_starts_with_is_find_0 :
+  forall s p, fs_starts_with s p = true <-> fs_find s p = Some O.
+Print Assumptions fs_starts_with_is_find_0.
+
+(* common_prefix_len is the length of the longest common prefix, and compare is decided by the unsigned bytes right
+   after it (a missing byte sorts first): lexicographic order by unsigned byte *)
+Theorem fs_cmp_by_common_prefix :
+  forall a b,
+    let k := fs_common_prefix_len a b in
+    firstn k a = firstn k b /\ (k <= length a)%nat /\ (k <= length b)%nat /\
+    (forall x y, nth_error a k = Some x -> nth_error b k = Some y -> x <> y) /\
+    fs_compare a b = cmp_at a b k.
+Proof. exact fs_cmp_by_common_prefix_proof. Qed.
+Check fs_cmp_by_common_prefix :
+  forall a b,
+    let k := fs_common_prefix_len a b in
+    firstn k a = firstn k b /\ (k <= length a)%nat /\ (k <= length b)%nat /\
+    (forall x y, nth_error a k = Some x -> nth_error b k = Some y -> x <> y) /\
+    fs_compare a b = cmp_at a b k.
+Print Assumptions fs_cmp_by_common_prefix.
+
+(* compare is a total order consistent with ==, and a prefix never sorts after the string *)
+Theorem fs_cmp_total_order :
+  (forall a, fs_compare a a = Eq) /\
+  (forall a b, fs_compare a b = Eq <-> a = b) /\
+  (forall a b, fs_eq a b = true <-> a = b) /\
+  (forall a b, fs_compare b a = CompOpp (fs_compare a b)) /\
+  (forall a b c, fs_compare a b = Lt -> fs_compare b c = Lt -> fs_compare a c = Lt) /\
+  (forall a b c, fs_compare a b <> Gt -> fs_compare b c <> Gt -> fs_compare a c <> Gt) /\
+  (forall s p, fs_starts_with s p = true -> fs_compare p s <> Gt).
+Proof. exact fs_cmp_total_order_proof. Qed.
+Check fs_cmp_total_order :
+  (forall a, fs_compare a a = Eq) /\
+  (forall a b, fs_compare a b = Eq <-> a = b) /\
+  (forall a b, fs_eq a b = true <-> a = b) /\
+  (forall a b, fs_compare b a = CompOpp (fs_compare a b)) /\
+  (forall a b c, fs_compare a b = Lt -> fs_compare b c = Lt -> fs_compare a c = Lt) /\
+  (forall a b c, fs_compare a b <> Gt -> fs_compare b c <> Gt -> fs_compare a c <> Gt) /\
+  (forall s p, fs_starts_with s p = true -> fs_compare p s <> Gt).
+Print Assumptions fs_cmp_total_order.
+
+(* prefix / substring_from / suffix never panic, clamp at the length, and prefix(k) ++ substring_from(k) is the string *)
+Theorem fs_slicing :
+  forall (s : bytes) (k : N),
+    let m := N.to_nat (N.min k (nlen s)) in
+    fs_prefix s k = Some (firstn m s) /\
+    fs_substring_from s k = Some (skipn m s) /\
+    fs_suffix s k = Some (skipn (length s - m) s) /\
+    firstn m s ++ skipn m s = s /\ length (firstn m s) = m /\ length (skipn (length s - m) s) = m.
+Proof. exact fs_slicing_proof. Qed.
+Check fs_slicing :
+  forall (s : bytes) (k : N),
+    let m := N.to_nat (N.min k (nlen s)) in
+    fs_prefix s k = Some (firstn m s) /\
+    fs_substring_from s k = Some (skipn m s) /\
+    fs_suffix s k = Some (skipn (length s - m) s) /\
+    firstn m s ++ skipn m s = s /\ length (firstn m s) = m /\ length (skipn (length s - m) s) = m.
+Print Assumptions fs_slicing.
+
+(* substring(start, len) with the saturating addition: the bytes from start, at most len of them; panics exactly when start > len() *)
+Theorem fs_substring_spec :
+  forall (s : bytes) (a l : N), nlen s <= USIZE_MAX ->
+    fs_substring s a l =
+    if a <=? nlen s then Some (firstn (N.to_nat (N.min l (nlen s - a))) (skipn (N.to_nat a) s)) else None.
+Proof. exact fs_substring_proof. Qed.
+Check fs_substring_spec :
+  forall (s : bytes) (a l : N), nlen s <= USIZE_MAX ->
+    fs_substring s a l =
+    if a <=? nlen s then Some (firstn (N.to_nat (N.min l (nlen s - a))) (skipn (N.to_nat a) s)) else None.
+Print Assumptions fs_substring_spec.
+
+(* the AVX2 (32-byte chunks, four lanes), SSE2 (16-byte chunks, two lanes) and portable (8-byte chunks) hash paths compute
+   the same function, for every length *)
+Theorem fs_hash_paths_agree :
+  forall s, hash_avx2 s = hash_fallback s /\ hash_sse2 s = hash_fallback s /\ hash_fast s = hash_fallback s.
+Proof. exact hash_paths_agree_proof. Qed.
+Check fs_hash_paths_agree :
+  forall s, hash_avx2 s = hash_fallback s /\ hash_sse2 s = hash_fallback s /\ hash_fast s = hash_fallback s.
+Print Assumptions fs_hash_paths_agree.
+
+(* equal strings hash equally and compare Equal *)
+Theorem fs_eq_hash_coherent :
+  forall a b, fs_eq a b = true -> hash_fast a = hash_fast b /\ fs_compare a b = Eq /\ fs_compare b a = Eq.
+Proof. exact eq_hash_coherent_proof. Qed.
+Check fs_eq_hash_coherent :
+  forall a b, fs_eq a b = true -> hash_fast a = hash_fast b /\ fs_compare a b = Eq /\ fs_compare b a = Eq.
+Print Assumptions fs_eq_hash_coherent.
+
+(* find_word_boundaries lists exactly the positions 0..=len that is_word_boundary accepts, ascending, each once *)
+Theorem find_word_boundaries_spec :
+  forall s, find_word_boundaries s = filter (is_word_boundary s) (seq 0 (S (length s))).
+Proof. exact find_word_boundaries_proof. Qed.
+Check find_word_boundaries_spec :
+  forall s, find_word_boundaries s = filter (is_word_boundary s) (seq 0 (S (length s))).
+Print Assumptions find_word_boundaries_spec.
+
+(* word_at_position returns the maximal run of word bytes around the position, None exactly outside a word *)
+Theorem word_at_position_maximal :
+  forall s pos,
+    match word_at_position s pos with
+    | Some (a, b) =>
+        (a <= pos < b)%nat /\ (b <= length s)%nat /\
+        (forall i, (a <= i < b)%nat -> is_word_char (byte_at s i) = true) /\
+        (a = O \/ is_word_char (byte_at s (a - 1)) = false) /\
+        (b = length s \/ is_word_char (byte_at s b) = false)
+    | None => (length s <= pos)%nat \/ is_word_char (byte_at s pos) = false
+    end.
+Proof. exact word_at_position_proof. Qed.
+Check word_at_position_maximal :
+  forall s pos,
+    match word_at_position s pos with
+    | Some (a, b) =>
+        (a <= pos < b)%nat /\ (b <= length s)%nat /\
+        (forall i, (a <= i < b)%nat -> is_word_char (byte_at s i) = true) /\
+        (a = O \/ is_word_char (byte_at s (a - 1)) = false) /\
+        (b = length s \/ is_word_char (byte_at s b) = false)
+    | None => (length s <= pos)%nat \/ is_word_char (byte_at s pos) = false
+    end.
+Print Assumptions word_at_position_maximal.
+
+(* every LineProcessor configuration (any trimming function) = per-line post-processing and filtering of the raw pieces *)
+Theorem lines_cfg_decompose :
+  forall trim cfg s,
+    process_lines trim cfg s =
+    filter (fun line => negb (lp_skipped cfg line)) (map (lp_line trim cfg) (process_lines trim cfg_keep s)).
+Proof. exact lines_cfg_decompose_proof. Qed.
+Check lines_cfg_decompose :
+  forall trim cfg s,
+    process_lines trim cfg s =
+    filter (fun line => negb (lp_skipped cfg line)) (map (lp_line trim cfg) (process_lines trim cfg_keep s)).
+Print Assumptions lines_cfg_decompose.
+
+(* with the endings preserved the delivered pieces concatenate to the input; every piece ends at the first newline, only
+   the last may be unterminated (and is then non-empty) *)
+Theorem lines_keep_concat :
+  forall trim s,
+    concat (process_lines trim cfg_keep s) = s /\ pieces_ok (process_lines trim cfg_keep s).
+Proof. exact lines_keep_concat_proof. Qed.
+Check lines_keep_concat :
+  forall trim s,
+    concat (process_lines trim cfg_keep s) = s /\ pieces_ok (process_lines trim cfg_keep s).
+Print Assumptions lines_keep_concat.
+
+(* count_lines = number of lines process_lines delivers, in every configuration *)
+Theorem count_lines_is_length :
+  forall trim cfg s, count_lines trim cfg s = nlen (process_lines trim cfg s).
+Proof. exact count_lines_is_length_proof. Qed.
+Check count_lines_is_length :
+  forall trim cfg s, count_lines trim cfg s = nlen (process_lines trim cfg s).
+Print Assumptions count_lines_is_length.
+
+(* process_batches hands over exactly the lines of process_lines, in order, in full batches plus one non-empty partial
+   batch at the end, and returns their number (batch size 0 behaves as 1) *)
+Theorem batches_spec :
+  forall trim cfg bsz s,
+    let '(bs, t) := process_batches trim cfg bsz s in
+    concat bs = process_lines trim cfg s /\ t = nlen (process_lines trim cfg s) /\ batches_ok (Nat.max bsz 1) bs.
+Proof. exact batches_proof. Qed.
+Check batches_spec :
+  forall trim cfg bsz s,
+    let '(bs, t) := process_batches trim cfg bsz s in
+    concat bs = process_lines trim cfg s /\ t = nlen (process_lines trim cfg s) /\ batches_ok (Nat.max bsz 1) bs.
+Print Assumptions batches_spec.
+
+(* the default configuration is the model the line theorem lines_unlines is about *)
+Theorem lines_default_is_lines :
+  forall trim s, process_lines trim cfg_default s = lines s.
+Proof. exact lines_default_proof. Qed.
+Check lines_default_is_lines :
+  forall trim s, process_lines trim cfg_default s = lines s.
+Print Assumptions lines_default_is_lines.
+
+(* non-trivial instances *)
+Example fast_nontrivial :
+  fs_find [1; 2; 1; 2; 1; 3] [1; 2; 1; 3] = Some 2%nat /\ fs_find [97; 97; 97] [97; 97] = Some O /\
+  fs_find [1; 2] [] = Some O /\ fs_find [1; 2; 3] [3; 4] = None /\
+  fs_common_prefix_len [104; 101; 108; 108] [104; 101; 108; 112] = 3%nat /\
+  fs_compare [115] [243] = Lt /\ fs_compare [1; 2] [1; 2; 0] = Lt /\
+  fs_substring [1; 2; 3; 4] 1 USIZE_MAX = Some [2; 3; 4] /\ fs_substring [1; 2] 3 0 = None /\
+  fs_suffix [1; 2; 3] 2 = Some [2; 3] /\
+  hash_avx2 demo_bytes = hash_fallback demo_bytes /\ hash_avx2 demo_bytes <> hash_avx2 (removelast demo_bytes) /\
+  nlen demo_bytes = 75.
+Proof. vm_compute. repeat split; try reflexivity; discriminate. Qed.
+Example text_nontrivial :
+  find_word_boundaries [104; 105; 32; 32; 120; 95; 49; 33] = [0; 2; 4; 7; 8]%nat /\
+  word_at_position [104; 105; 32; 32; 120; 95; 49; 33] 5 = Some (4, 7)%nat /\
+  process_lines utf8_trim (cfg_of_bits 3) [32; 97; 32; 13; 10; 194; 160; 10; 98] = [[97]; [98]] /\
+  process_lines utf8_trim cfg_keep [97; 13; 10; 10; 98] = [[97; 13; 10]; [10]; [98]] /\
+  process_batches utf8_trim cfg_default 2 [97; 10; 98; 10; 99; 10] = ([[[97]; [98]]; [[99]]], 3) /\
+  count_lines utf8_trim (cfg_of_bits 1) [10; 97; 10; 10] = 1.
+Proof. vm_compute. repeat split; reflexivity. Qed.
